@@ -48,7 +48,19 @@ def child_main(args):
     faulthandler.enable()
     if shard.get("timeout"):
         faulthandler.dump_traceback_later(shard["timeout"] - 5, exit=False)
+    cov = None
+    if os.environ.get("VERIF_COVERAGE"):
+        # tools/covmap.py only: which lines of the library the workloads reach (never set by registered commands)
+        import coverage
+
+        os.makedirs(os.environ["VERIF_COVERAGE"], exist_ok=True)
+        cov = coverage.Coverage(data_file=os.path.join(os.environ["VERIF_COVERAGE"], "cov"), data_suffix=True,
+                                include=[os.path.join(common.REPO, "strawberryfields", "*")], config_file=False)
+        cov.start()
     mod.run_shard(shard, rep)
+    if cov is not None:
+        cov.stop()
+        cov.save()
     faulthandler.cancel_dump_traceback_later()
     with open(args.shard_out, "w") as f:
         json.dump(rep.to_json(), f)
